@@ -40,6 +40,12 @@ fn base_ops(p: &mut Prng, pfx: &str, msg: &[u8], order: &str, comp: bool, encryp
     let mut ops = vec![set(&s("d"), &be32(&d))];
     ops.push(json!({"op":"sm2.derive_pk","impl":"lib","d":s("d"),"pk":s("pk"),"comp":p.chance(1,3)}));
     ops.push(set(&s("msg"), msg));
+    if p.chance(1, 5) {
+        // history across operations: the same key pair first signs something
+        ops.push(set(&s("smsg"), &p.bytes(12)));
+        ops.push(json!({"op":"sm2.sign","impl":"lib","d":s("d"),"id":Value::Null,"msg":s("smsg"),"sig":s("ssig"),"rng":rng_json(&uniform_script(p, 1))}));
+        ops.push(json!({"op":"sm2.verify","impl":"lib","pk":s("pk"),"id":Value::Null,"msg":s("smsg"),"sig":s("ssig")}));
+    }
     let via = if p.chance(1, 5) { "struct" } else { "new" };
     // struct delivery needs the uncompressed wire form; the op falls back to `new` otherwise
     ops.push(enc_op(pfx, encryptor, order, comp, via, rng_json(&classy_script(p, &n))));
@@ -85,14 +91,17 @@ pub fn run_c05(p: &mut Prng, t: Tier, i: usize, sink: &mut Sink) {
                 w.exec(json!({"op":"entry.sm2.kdf","z":"z","klen":klen}));
             }
         }
-        // and a message beyond 255 KDF blocks, both directions
-        let msg = p.bytes(8200);
-        for enc in ["lib", "ref"] {
-            let mut ops = base_ops(p, enc, &msg, "C1C3C2", false, enc);
+        // and messages beyond 255 KDF blocks / beyond 2^16 bytes, both directions
+        for (mi, mlen) in [8200usize, 70000].iter().enumerate() {
+        let msg = p.bytes(*mlen);
+        for enc0 in ["lib", "ref"] {
+            let enc = &format!("{enc0}{mi}");
+            let mut ops = base_ops(p, enc, &msg, "C1C3C2", false, enc0);
             ops.push(dec_op(enc, "C1C3C2", false));
             for op in ops {
                 w.exec(op);
             }
+        }
         }
         sink.done(w);
         return;
@@ -352,6 +361,8 @@ pub fn run_c06(p: &mut Prng, _t: Tier, i: usize, sink: &mut Sink) {
             // all-zero point, (0, sqrt(b)) style edge, coordinates = p
             branches.push(vec![fault("a.ct", "splice", json!({"pos":1,"hex":hex::encode([0u8; 64])})), dec()]);
             branches.push(vec![fault("a.ct", "splice", json!({"pos":1,"hex":hex::encode(be32(&pp))})), dec()]);
+            branches.push(vec![fault("a.ct", "splice", json!({"pos":1,"hex":hex::encode(be32(&(&pp - 1u32)))})), dec()]);
+            branches.push(vec![fault("a.ct", "splice", json!({"pos":33,"hex":hex::encode(be32(&(&pp - 1u32)))})), dec()]);
             // crafted "zero point": C1 = (0,0); a decoder that maps it to infinity computes x2 = y2 = 0
             {
                 let z = BigUint::from(0u32);
